@@ -29,6 +29,10 @@ pub struct Scenario {
     pub client_addr: SocketAddr,
     pub profile: Profile,
     pub stop_after_encryption_request: bool,
+    /// the shared secret the client sends in its Encryption Response (vanilla: 16 bytes)
+    pub shared_secret: Vec<u8>,
+    /// how the client answers the verify token: 0 = as issued, 1 = last byte dropped, 2 = one byte appended, 3 = first bit flipped, 4 = empty
+    pub token_mode: u8,
 }
 
 impl Default for Scenario {
@@ -44,6 +48,8 @@ impl Default for Scenario {
             client_addr: SocketAddr::from_str("127.0.0.1:25564").unwrap(),
             profile: Profile { id: Uuid::from_u128(7), name: "Authed".into(), properties: vec![], profile_actions: vec![] },
             stop_after_encryption_request: false,
+            shared_secret: b"verysecuresecret".to_vec(),
+            token_mode: 0,
         }
     }
 }
@@ -109,13 +115,18 @@ pub async fn run(sc: Scenario) -> Transcript {
         let enc = login_out::EncryptionRequestPacket::read_from_buffer(&mut b).await.map_err(|e| e.to_string())?;
         t.should_authenticate = Some(enc.should_authenticate);
         if sc.stop_after_encryption_request { return Ok(()); }
-        let shared_secret = b"verysecuresecret";
+        let shared_secret = sc.shared_secret.clone();
         let key = &crypto::KEY_PAIR.1;
+        let mut token = enc.verify_token.to_vec();
+        match sc.token_mode { 1 => { token.pop(); } 2 => token.push(0), 3 => token[0] ^= 0x80, 4 => token.clear(), _ => {} }
         client.write_packet(login_in::EncryptionResponsePacket {
-            shared_secret: crypto::encrypt(key, shared_secret).map_err(|e| e.to_string())?,
-            verify_token: crypto::encrypt(key, &enc.verify_token).map_err(|e| e.to_string())?,
+            shared_secret: crypto::encrypt(key, &shared_secret).map_err(|e| e.to_string())?,
+            verify_token: crypto::encrypt(key, &token).map_err(|e| e.to_string())?,
         }).await.map_err(|e| e.to_string())?;
-        let mut client = CipherStream::from_secret(client, shared_secret).map_err(|e| e.to_string())?;
+        // a client whose secret has the wrong size keys its side with the first 16 bytes (zero-padded)
+        let mut k16 = shared_secret.clone();
+        k16.resize(16, 0);
+        let mut client = CipherStream::from_secret(client, &k16).map_err(|e| e.to_string())?;
         let (id, mut b) = read_frame(&mut client).await?;
         if id != 0x02 { return Err(format!("expected login success, got id {id}")); }
         let ls = login_out::LoginSuccessPacket::read_from_buffer(&mut b).await.map_err(|e| e.to_string())?;
@@ -163,6 +174,21 @@ pub fn locale(_seed: u64) -> usize {
                 println!("REPRODUCED locale client locale {loc:?}, no target chosen: Disconnect reason {other:?}, configured message for that locale is {expect:?} (transfer={:?}, client_error={:?}, server={:?})", t.transfer, t.client_error, t.server_result);
                 found += 1;
             }
+        }
+    }
+    found
+}
+
+/// C01: Login Success only after an Encryption Response with the issued verify token and a usable (16-byte) shared secret
+pub fn enc_response(_seed: u64) -> usize {
+    let rt = crate::rt();
+    let mut found = 0;
+    for (len, mode) in [(0usize, 0u8), (1, 0), (15, 0), (17, 0), (24, 0), (32, 0), (16, 1), (16, 2), (16, 3), (16, 4)] {
+        let secret: Vec<u8> = (0..len).map(|i| b'a' + (i % 26) as u8).collect();
+        let t = rt.block_on(run(Scenario { shared_secret: secret, token_mode: mode, targets: vec![target("10.0.0.7:25570", "lobby-1")], ..Default::default() }));
+        if t.login_success.is_some() || t.transfer.is_some() || t.server_result.as_deref() == Some("Ok") || t.server_result.as_deref().is_some_and(|r| r.starts_with("panicked")) {
+            println!("REPRODUCED enc_response shared secret of {len} bytes, verify token mode {mode}: login_success={:?} transfer={:?} server={:?}", t.login_success, t.transfer, t.server_result);
+            found += 1;
         }
     }
     found
@@ -302,6 +328,7 @@ pub fn cookie_matrix(_seed: u64) -> usize {
             target: None, profile_properties: vec![], extra: Default::default() }).unwrap()
     };
     let good = sign(&mk(now, "127.0.0.1:1"), &secret);
+    let mut found_extra = 0;
     let mut cases: Vec<(&str, State, Option<Vec<u8>>, Option<Vec<u8>>, bool)> = vec![
         ("valid", State::Transfer, Some(secret.clone()), Some(good.clone()), false),
         ("login intent", State::Login, Some(secret.clone()), Some(good.clone()), true),
@@ -312,9 +339,36 @@ pub fn cookie_matrix(_seed: u64) -> usize {
         ("other ip", State::Transfer, Some(secret.clone()), Some(sign(&mk(now, "127.0.0.2:1"), &secret)), true),
         ("expired", State::Transfer, Some(secret.clone()), Some(sign(&mk(now - 6 * 3600 - 5, "127.0.0.1:1"), &secret)), true),
     ];
+    // independent reference of the cookie format: HMAC-SHA256 (keyed with the *whole* secret) followed by the message
+    let ref_sign = |msg: &[u8], key: &[u8]| -> Vec<u8> {
+        use hmac::Mac;
+        let mut mac = hmac::Hmac::<sha2::Sha256>::new_from_slice(key).unwrap();
+        mac.update(msg);
+        let mut out = mac.finalize().into_bytes().to_vec();
+        out.extend_from_slice(msg);
+        out
+    };
+    let body = mk(now, "127.0.0.1:1");
+    for (name, configured, signer, want_auth) in [
+        ("reference-signed, same secret", &b"cookie-secret"[..], &b"cookie-secret"[..], false),
+        ("secret is a prefix (first line) of the configured one", &b"line1\nline2"[..], &b"line1"[..], true),
+        ("other second line", &b"line1\nline2"[..], &b"line1\nother"[..], true),
+        ("empty key against a configured secret starting with a line break", &b"\nsecret"[..], &b""[..], true),
+        ("configured secret with trailing line break, cookie signed without", &b"secret\n"[..], &b"secret"[..], true),
+        ("64-byte secret", &[b'k'; 64][..], &[b'k'; 64][..], false),
+        ("65-byte secret vs its 64-byte prefix", &[b'k'; 65][..], &[b'k'; 64][..], true),
+        ("200-byte secret", &[b'z'; 200][..], &[b'z'; 200][..], false),
+    ] {
+        let t = rt.block_on(run(Scenario { intent: State::Transfer, secret: Some(configured.to_vec()), auth_cookie: Some(ref_sign(&body, signer)), stop_after_encryption_request: true, ..Default::default() }));
+        if t.should_authenticate != Some(want_auth) {
+            println!("REPRODUCED cookie_matrix case {name:?} (configured secret {:?}, cookie tagged with HMAC-SHA256 under {:?}): should_authenticate={:?}, expected {want_auth} (client_error={:?}, server={:?})",
+                String::from_utf8_lossy(configured), String::from_utf8_lossy(signer), t.should_authenticate, t.client_error, t.server_result);
+            found_extra += 1;
+        }
+    }
     for cut in [1usize, 31, 32, 33, good.len() - 1] { cases.push(("truncated", State::Transfer, Some(secret.clone()), Some(good[..cut].to_vec()), true)); }
     for bit in [0usize, 7, 255, 256, 8 * good.len() - 1] { let mut g = good.clone(); g[bit / 8] ^= 1 << (bit % 8); cases.push(("bit flip", State::Transfer, Some(secret.clone()), Some(g), true)); }
-    let mut found = 0;
+    let mut found = found_extra;
     for (name, intent, sec, cookie, want_auth) in cases {
         let t = rt.block_on(run(Scenario { intent, secret: sec, auth_cookie: cookie.clone(), stop_after_encryption_request: true, ..Default::default() }));
         if t.should_authenticate != Some(want_auth) {
